@@ -101,6 +101,11 @@ FinalCrash ==
   /\ l' = l + 1 /\ UNCHANGED <<s, pend, seg>>
   /\ Mark(l + 1)
 
+Note ==     \* informational lines of the drivers (model-drift notes of replayed behaviours)
+  /\ l <= N /\ Trace[l].ev = "protonote"
+  /\ l' = l + 1 /\ UNCHANGED <<s, pend, seg>>
+  /\ Mark(l + 1)
+
 Restart ==  \* clean restart during the sequential set-up (everything so far was acknowledged stable)
   /\ l <= N /\ Trace[l].ev = "restart" /\ DOMAIN pend = {}
   /\ s' = AfterRecovery(s, s.objs) /\ l' = l + 1 /\ UNCHANGED <<pend, seg>>
@@ -110,7 +115,7 @@ Skip ==    \* abandon this history
   /\ l <= N /\ ~IsReset(l) /\ seg >= 0
   /\ l' = NextReset(l) /\ s' = InitState("", TRUE) /\ pend' = NoPend /\ seg' = -2
 
-LNext == DoReset \/ Inv \/ Ret \/ Final \/ FinalCrash \/ CrashProbe \/ Restart \/ Skip \/ \E c \in DOMAIN pend : Lin(c)
+LNext == DoReset \/ Inv \/ Ret \/ Note \/ Final \/ FinalCrash \/ CrashProbe \/ Restart \/ Skip \/ \E c \in DOMAIN pend : Lin(c)
 LSpec == LInit /\ [][LNext]_vars
 
 (* one line per history: the furthest line reached *)
